@@ -163,11 +163,15 @@ def run(ctx):
                 isinstance(n.value.func, ast.Name) and n.value.func.id == 'compile':
             comp = n
     if comp is None:
-        raise AnalysisError('anchor-lost role=S3 metadata key parser')
+        # no template-derived parser: evaluate how the listing derives the id from a listed key on sample keys
+        generic_id_derivation(ctx, res, cd, s3)
+        comp = None
     consts = {k: v.value for k, v in s3.consts.items() if isinstance(v, ast.Constant)}
     tmpl = consts.get('METADATA_KEY')
     problems = []
     nchk = 0
+    if comp is None:
+        return finish_c10(ctx, res, cf)
     try:
         for kp in ('', 'team/', 'a/b/'):
             env = {'self': dict(consts, key_prefix=kp)}
@@ -206,33 +210,7 @@ def run(ctx):
     if not uses:
         res.add(Finding('C10', 'C10.d', 'R-AGREE', it3.file, it3.qualname, it3.node.lineno, 'id from listed key',
                         'the S3 listing does not derive the yielded id from the listed key with the template parser'))
-    # ---------------- C10.f helper
-    lk = None
-    for m in repo.modules.values():
-        if 'find_matching_recording_ids' in m.functions:
-            lk = m.functions['find_matching_recording_ids']
-    if lk is None:
-        raise AnalysisError('anchor-lost function=find_matching_recording_ids')
-    call = [n for n in ast.walk(lk.node) if isinstance(n, ast.Call) and isinstance(n.func, ast.Attribute) and n.func.attr == 'iter_recording_ids']
-    if len(call) != 1:
-        raise AnalysisError('anchor-lost: lookup helper calls iter_recording_ids %d times' % len(call))
-    c0 = call[0]
-    lp = lk.params[2]
-    want = {'start_date': 'start_date', 'end_date': 'end_date', 'limit': 'limit', 'random_results': 'random_sample'}
-    kws = {k.arg: k.value for k in c0.keywords}
-    okcat = bool(c0.args) and isinstance(c0.args[0], ast.Name) and c0.args[0].id == lk.params[1]
-    cf.instance('category forwarded', lk.qualname, okcat)
-    if not okcat:
-        res.add(Finding('C10', 'C10.f', 'R-AGREE', lk.file, lk.qualname, c0.lineno, norm(c0)[:100], 'the lookup helper does not forward the requested category'))
-    for kw, attr in want.items():
-        v = kws.get(kw)
-        ok = isinstance(v, ast.Attribute) and isinstance(v.value, ast.Name) and v.value.id == lp and v.attr == attr
-        cf.instance('%s = lookup_properties.%s' % (kw, attr), lk.qualname, ok, detail=norm(v) if v is not None else 'missing')
-        cf.evaluations += 1
-        if not ok:
-            res.add(Finding('C10', 'C10.f', 'R-AGREE', lk.file, lk.qualname, c0.lineno, '%s=%s' % (kw, norm(v) if v is not None else 'missing'),
-                            'the lookup helper does not forward %s unchanged from the lookup properties' % kw))
-    return res
+    return finish_c10(ctx, res, cf)
 
 
 def category_exactness_loops(ctx, res, ca, prop, cid, pol, excm, classes):
@@ -269,3 +247,81 @@ def category_exactness_loops(ctx, res, ca, prop, cid, pol, excm, classes):
                             'category extracted from that id: categories that are prefixes of one another (or contain the file-name '
                             'delimiter) are confused; the sibling cassettes compare exactly' % c.name,
                             witness=dom.path_to(node, st) if node is not None and (node.id, st.key()) in dom.pred else None))
+
+
+def finish_c10(ctx, res, cf):
+    repo = ctx.repo
+    # ---------------- C10.f helper
+    lk = None
+    for m in repo.modules.values():
+        if 'find_matching_recording_ids' in m.functions:
+            lk = m.functions['find_matching_recording_ids']
+    if lk is None:
+        raise AnalysisError('anchor-lost function=find_matching_recording_ids')
+    call = [n for n in ast.walk(lk.node) if isinstance(n, ast.Call) and isinstance(n.func, ast.Attribute) and n.func.attr == 'iter_recording_ids']
+    if len(call) != 1:
+        raise AnalysisError('anchor-lost: lookup helper calls iter_recording_ids %d times' % len(call))
+    c0 = call[0]
+    lp = lk.params[2]
+    want = {'start_date': 'start_date', 'end_date': 'end_date', 'limit': 'limit', 'random_results': 'random_sample'}
+    kws = {k.arg: k.value for k in c0.keywords}
+    okcat = bool(c0.args) and isinstance(c0.args[0], ast.Name) and c0.args[0].id == lk.params[1]
+    cf.instance('category forwarded', lk.qualname, okcat)
+    if not okcat:
+        res.add(Finding('C10', 'C10.f', 'R-AGREE', lk.file, lk.qualname, c0.lineno, norm(c0)[:100], 'the lookup helper does not forward the requested category'))
+    for kw, attr in want.items():
+        v = kws.get(kw)
+        ok = isinstance(v, ast.Attribute) and isinstance(v.value, ast.Name) and v.value.id == lp and v.attr == attr
+        cf.instance('%s = lookup_properties.%s' % (kw, attr), lk.qualname, ok, detail=norm(v) if v is not None else 'missing')
+        cf.evaluations += 1
+        if not ok:
+            res.add(Finding('C10', 'C10.f', 'R-AGREE', lk.file, lk.qualname, c0.lineno, '%s=%s' % (kw, norm(v) if v is not None else 'missing'),
+                            'the lookup helper does not forward %s unchanged from the lookup properties' % kw))
+    return res
+
+
+def generic_id_derivation(ctx, res, cd, s3):
+    """the S3 listing turns a listed key back into a recording id without the template parser: evaluate that expression on
+    keys generated from the writer's template for several prefixes (including ones that contain the template's own words)"""
+    it3 = s3.lookup('iter_recording_ids')
+    ys = [n for n in ast.walk(it3.node) if isinstance(n, ast.Yield) and n.value is not None]
+    if len(ys) != 1:
+        raise AnalysisError('S3 listing yields at %d places: shape not modelled' % len(ys))
+    defs = {}
+    for n in walk_own(it3.node):
+        if isinstance(n, ast.Assign) and isinstance(n.targets[0], ast.Name):
+            defs.setdefault(n.targets[0].id, []).append(n.value)
+    e = ys[0].value
+    hops = 0
+    while isinstance(e, ast.Name) and e.id in defs and len(defs[e.id]) == 1 and hops < 4:
+        e = defs[e.id][0]
+        hops += 1
+    keyvar = None
+    for nm, vs in defs.items():
+        if any(isinstance(v, ast.Call) and isinstance(v.func, ast.Name) and v.func.id == 'next' for v in vs):
+            keyvar = nm
+    if keyvar is None:
+        raise AnalysisError('S3 listing: variable holding the listed key not found')
+    consts = {k: v.value for k, v in s3.consts.items() if isinstance(v, ast.Constant)}
+    tmpl = consts.get('METADATA_KEY')
+    wrong = []
+    n = 0
+    try:
+        for kp in ('', 'team/', 'a/b/', 'service_metadata/', 'metadata/', 'full/'):
+            for rid in ('Op/20240131/abc', 'metadata/20240131/x'):
+                key = tmpl.format(key_prefix=kp, id=rid)
+                got = eval_pred(e, {keyvar: key, 'self': dict(consts, key_prefix=kp)}, it3.module)
+                n += 1
+                if got != rid:
+                    wrong.append((kp, key, got, rid))
+    except Undecidable as u:
+        raise AnalysisError('S3 listing derives the id with a construct the evaluator does not model: %s' % u)
+    cd.evaluations += n
+    cd.instance('S3 listing: `%s` maps %d sample keys (6 prefixes) back to their ids' % (norm(e)[:60], n), it3.qualname, not wrong)
+    cd.instance('S3 listing derives ids from listed keys', it3.qualname, True)
+    cd.instance('S3 listing: id derivation evaluated on adversarial prefixes', it3.qualname, not wrong)
+    if wrong:
+        kp, key, got, rid = wrong[0]
+        res.add(Finding('C10', 'C10.d', 'R-AGREE', it3.file, it3.qualname, ys[0].lineno, norm(e)[:120],
+                        'the id derived from a listed key is wrong for %d of %d sample keys, e.g. prefix %r: key %r gives %r instead of %r - such ids were '
+                        'never saved and cannot be fetched' % (len(wrong), n, kp, key, got, rid)))
